@@ -26,6 +26,18 @@ CORPUS = [
     T('c06-node-heights-order', TM, "                (\n                    self.sampling_times.expand(\n                        self._internal_heights.tensor.shape[:-1] + (-1,)\n                    ),\n                    self._internal_heights.tensor,\n                ),\n                -1,\n            )\n            self.heights_need_update = False",
       "                (\n                    self._internal_heights.tensor,\n                    self.sampling_times.expand(\n                        self._internal_heights.tensor.shape[:-1] + (-1,)\n                    ),\n                ),\n                -1,\n            )\n            self.heights_need_update = False",
       expect=[('C06.F', 'TimeTreeModel.node_heights::tips-at-sampling-times')]),
+    T('c06-shift-inverse-max-over-batch', TH, "                x[node - self.taxa_count] = heights[node] - torch.max(\n                    heights[left], heights[right]\n                )",
+      "                x[node - self.taxa_count] = heights[node] - torch.max(\n                    torch.cat((heights[left], heights[right]), -1)\n                )", expect=[('C06.S', '_inverse::k≤0')]),
+    T('c06-shift-inverse-one-child', TH, "                x[node - self.taxa_count] = heights[node] - torch.max(\n                    heights[left], heights[right]\n                )",
+      "                x[node - self.taxa_count] = heights[node] - torch.max(\n                    heights[left], heights[left]\n                )", expect=[('C06.S', '_inverse::k≤0')]),
+    T('c06-shift-inverse-smooth-unscaled', TH, "                    / self.k\n", "                    / 1.0\n", expect=[('C06.S', '_inverse::k>0')]),
+    T('c06-shift-forward-keepdim', TH, "            self.max = lambda input: torch.max(input, dim=-1, keepdim=True)[0]", "            self.max = lambda input: torch.max(input)", expect=[('C06.S', '_call::k≤0')]),
+    T('c06-shift-forward-wrong-increment', TH, "                + x[..., node - self.taxa_count : (node - self.taxa_count + 1)]", "                + x[..., node - self.taxa_count - 1 : (node - self.taxa_count)]", expect=[('C06.S', '_call::k')]),
+    T('c06-shift-regimes-swapped', TH, "        if self.k > 0:\n            for node, left, right in self.tree.postorder:", "        if self.k <= 0:\n            for node, left, right in self.tree.postorder:", expect=[('C06.S', '_inverse::k')]),
+    T('c06-benign-shift-inverse-cat-form', TH, "                x[node - self.taxa_count] = heights[node] - torch.max(\n                    heights[left], heights[right]\n                )",
+      "                x[node - self.taxa_count] = heights[node] - torch.max(\n                    torch.cat((heights[left], heights[right]), -1), dim=-1, keepdim=True\n                )[0]", benign=True),
+    T('c06-benign-shift-maximum', TH, "                x[node - self.taxa_count] = heights[node] - torch.max(\n                    heights[left], heights[right]\n                )",
+      "                x[node - self.taxa_count] = heights[node] - torch.maximum(\n                    heights[right], heights[left]\n                )", benign=True),
     Mut('c06-benign-guarded-choice', TM, 'ReparameterizedTimeTreeModel.cpu', 'self.transform = type(self.transform)(self)',
         'if isinstance(self.transform, GeneralNodeHeightTransform):\n    self.transform = GeneralNodeHeightTransform(self)\nelse:\n    self.transform = DifferenceNodeHeightTransform(self)', benign=True),
 ]
